@@ -73,8 +73,8 @@ CHECKS["C05"] = {"text": "Statement seq_refinement_stmt (Wal/Hist.v): for every 
                  "note": _L2NOTE, "technique": "Rocq proof (refinement to an abstract contiguous log) + model/implementation correspondence", "ref": "DESIGN.md 5 C05"}
 CHECKS["C08"] = {"text": "Stable store: Get returns the latest successful Set across interleavings with log operations and reopens (seq_refinement_stmt, dk_stable = spec map) and across crashes (crash_refinement_stmt); isolation lemmas; uint64 round trip. Tied by seqapi (incl. real BoltDB) and crash streams." + _INTERIM,
                  "note": _L2NOTE + " bbolt's transaction atomicity/durability is trusted (partial).", "technique": "Rocq proof (refinement incl. key/value map) + model/implementation correspondence", "ref": "DESIGN.md 5 C08"}
-CHECKS["C10"] = {"text": "Statement fault_safety_stmt (Wal/FaultHist.v): for every history with an I/O error injected at any action of any call, readers of the running process see exactly the acknowledged state and a reopen presents a state in which each failed call is applied in full or not at all. Proved so far: rollback of failed appends/force-seals, failed commits publish nothing, writes refused after a failed post-commit creation. Model tied to the code by the faults stream; acknowledged-entries oracle. NOTE: the full statement is NOT proved yet (only the *_partial lemmas are); it is evaluated on random histories of the model every run (a test).",
-                 "note": _L2NOTE + " Faults are single transient failures without partial effect; deletions exempt.", "technique": "Rocq proof (partial: local rollback lemmas; full statement tested) + model/implementation correspondence under fault injection", "ref": "DESIGN.md 5 C10"}
+CHECKS["C10"] = {"text": "Statement fault_safety_stmt (Wal/FaultHist.v), PROVED in full (Wal/FaultThm.v fault_safety, Props/C10.v C10_fault_safety, closed under the global context): for every history of calls in which one I/O action of a call fails (any action of any call: segment write, fsync, file creation, metadata commit in StoreLogs incl. the reset of the empty first segment, in the background rotation a call waits for, in DeleteRange head/tail truncation incl. the forced seal, in stable Set, in Open incl. the completion of an interrupted rotation; deletions exempt), with process restarts and Close/Open cycles: readers of the running process see exactly the state in which calls that returned nil are applied and calls that returned an error are not; a call that returned nil was acceptable to the specification; a restart/reopen opens the WAL (unless a fault is injected into that Open) and presents a state in which every failed call is applied in full (in place, or at restart time for a failed StoreLogs whose complete bytes sit behind the last commit) or not at all. Corollaries C10_nominal_view, C10_acked_visible_in_process, C10_failed_store_invisible, C10_reopen_applies_whole_or_nothing; six vm_compute example histories (failed fsync then shorter batch then restart; adopted batch at restart; create failure after a tail-truncation commit; failed rotation commit; fault inside Open). Model tied to the code by the faults stream; acknowledged-entries oracle; the executable statement is additionally evaluated on random histories every run.",
+                 "note": _L2NOTE + " Faults are single transient failures without partial effect; deletions exempt; an I/O error followed by a restart and a later power loss is outside the model.", "technique": "Rocq proof (lock-step simulation of the faulty run against the fault-free run + invariant over histories, reusing the crash invariants) + model/implementation correspondence under fault injection", "ref": "DESIGN.md 5 C10"}
 
 CHECKS["C11"] = {
     "text": "Kernel-checked theorems on the byte-level models: scanning terminates with fuel to spare on every byte string; the only data-dependent allocations (CRC batch buffer, second frame read, dump buffer) are bounded by the file length resp. MaxEntrySize; a sealed file shorter than its header / with damaged magic or version / with another segment's header is refused; every strict prefix of a valid entry encoding and every valid encoding followed by extra bytes decodes to an error; at the WAL level a listed sealed segment that is missing or header-less makes Open fail. The models are tied to the code by the corrupt stream (damaged files: outcome kind and recovered entries equal the model's), the malformed half of the codec stream, and an implementation-only stream (openfail) that damages real directories, requires Open to fail, and requires a second Open in the same process to return and - damage undone - to present the original log.",
